@@ -34,7 +34,7 @@ MIN_EVALUATIONS = {"quick": 20000, "thorough": 1000000}
 
 
 def plan(tier, seed):
-    n = 2500 if tier == "quick" else 120000
+    n = 15000 if tier == "quick" else 200000
     return [dict(seed=seed, shard=i, n=n, cross=(i < 4), part=i)
             for i in range(16)]
 
